@@ -280,8 +280,18 @@ func hFrames(o Op) (out map[string]interface{}) {
 	}
 	var w bytes.Buffer
 	ws := util.NewProtoStream(context.Background(), nil, &w)
+	// "reuse": the sender keeps ONE packet value and assigns the fields of the next packet to it before every send
+	// (the encoding of a value must not depend on what the same struct held, or how it was measured, before)
+	reuse := o.boolean("reuse")
+	carrier := &types.Packet{}
 	for _, p := range pkts {
-		if err := ws.SendMsg(p); err != nil {
+		q := p
+		if reuse {
+			carrier.Type, carrier.Stat, carrier.ID, carrier.Data = p.Type, p.Stat, p.ID, p.Data
+			q = carrier
+			_ = q.Size()
+		}
+		if err := ws.SendMsg(q); err != nil {
 			out["senderr"] = err.Error()
 			return out
 		}
